@@ -1080,7 +1080,7 @@ def m_sat_sub(c):
     st.set_iv(t, lo, hi)
     me = ("n", t, 0)
     # unsigned (or b >= 0): result <= a
-    if ib[0] is not None and ib[0] >= 0:
+    if (r[0] == 0) or (ib[0] is not None and ib[0] >= 0):
         st.add_le(me, a, 0)
     # result >= a - b  when no upper saturation:  a - me <= b
     if b[0] == "n" and b[1] is None and a[0] == "n" and a[1] is not None:
